@@ -124,8 +124,8 @@ class Adapter:
     def kwargs_sets(self):
         """[(label, kwargs, strict)]"""
         out = []
-        for B in (1, 2):
-            for e in EPS:
+        for B in (1, 2, 0.5):
+            for e in (EPS if B != 0.5 else EPS[:1]):
                 out.append(("strict", {"A": self.threshold(B) + e, "B": B}, True))
         if self.weak_default:
             out.append(("default", {}, False))
@@ -484,7 +484,7 @@ def run(ctx):
                   "JobSequencing": "<=3 jobs of length 1..3, 1-3 workers, log_trick both, <=%d formulation variables" % MAXV,
                   "GraphPartitioning": "all graphs without isolated vertices on 2, 4" + ("" if ctx.quick else ", 6 (<=5 edges)") + " vertices; edge sets and unit-weight dicts",
                   "NumberPartitioning": "multisets of <=5 numbers from 1..4, list and tuple", "AlternatingSectorsChain": "N<=6, chain length 2,3, four strength pairs, pbc both",
-                  "weights": "strict: threshold + {1/8, 1}, B in {1,2}; defaults for the five classes of the statement"}
+                  "weights": "strict: threshold + {1/8, 1}, B in {1,2} and threshold + 1/8 with B = 1/2; defaults for the five classes of the statement"}
     ctx.rule = "case = one problem instance (all weights/forms/assignments inside); all are non-trivial"
     explore_cases(ctx, gen_cases(ctx.tier), check, label="C10")
 
